@@ -200,7 +200,8 @@ def _render(line, fmt, rng):
             kind, arg = seg[1], seg[2]
             if fmt == 'webvtt':
                 if kind == 'v':
-                    out += '<v %s>' % arg
+                    # a voice tag may carry classes: <v.loud Mary>, <v.first.loud Mary>
+                    out += '<v%s %s>' % (rng.choice(['', '', '.loud', '.first.loud']), arg)
                 elif kind == 'c':
                     out += '<c.%s>' % arg
                 elif kind == 'lang':
